@@ -419,6 +419,49 @@ func validDocs(c *explore.Ctx) {
 	}
 }
 
+// ---- deep nesting: every depth a valid document can have (encoding/json accepts 10000 levels)
+
+var nestDepths = []int{1, 2, 31, 32, 33, 63, 64, 65, 127, 128, 129, 255, 256, 257, 1023, 1024, 1025, 4096, 9998, 9999, 10000}
+
+func deepNesting(c *explore.Ctx) {
+	depth := nestDepths[c.Choose(len(nestDepths))]
+	shape := c.Choose(4)
+	inner := []string{"1", "", `"s"`}[c.Choose(3)]
+	var b strings.Builder
+	var closers []byte
+	for i := 0; i < depth; i++ {
+		obj := shape == 1 || (shape == 2 && i%2 == 1) || (shape == 3 && i%3 == 0)
+		last := i == depth-1
+		if obj {
+			b.WriteString("{")
+			closers = append(closers, '}')
+			if !last || inner != "" {
+				b.WriteString(`"k":`)
+			}
+		} else {
+			b.WriteString("[")
+			closers = append(closers, ']')
+			if shape == 3 && !last {
+				b.WriteString("0,") // the nested container is the second element
+			}
+		}
+	}
+	b.WriteString(inner)
+	for i := len(closers) - 1; i >= 0; i-- {
+		b.WriteByte(closers[i])
+	}
+	doc := []byte(b.String())
+	if !stdjson.Valid(doc) {
+		panic(fmt.Sprintf("deep-nesting generator built an invalid document (depth %d shape %d)", depth, shape))
+	}
+	checkValid(c, doc, "deep")
+	c.NontrivialStr("deep", fmt.Sprint(depth, shape, inner))
+	c.Outcome(fmt.Sprintf("deep>=1024:%v", depth >= 1024))
+	if c.WantSample() || c.Failed() {
+		c.Case(map[string]any{"depth": depth, "shape": []string{"arrays", "objects", "alternating", "mixed with siblings"}[shape], "innermost": inner, "bytes": len(doc)})
+	}
+}
+
 // ---- arbitrary byte strings: termination, no panic, error stickiness
 
 var alphabet = []byte{'{', '}', '[', ']', ',', ':', '"', '\\', '-', '0', '1', 'e', 'n', 'u', 'l', 't', 'r', 'a', 'f', 's', ' ', 0x1f, 0x80, '.'}
@@ -545,6 +588,7 @@ func Spec() *explore.Spec {
 				}
 				return 0
 			}, Doc: "every document of a grammar with nesting depth <= 2 and <= 2 members per container (thorough: 3 members), 18 scalars, empty containers inside non-empty ones x {no white space; each of 6 white space forms (space, tab, LF, CR, CRLF, a mix) in every gap and around the document}: token-by-token equality with a reference model (validated against encoding/json's Token stream on every document): Value, Delim, Depth/Index/IsKey of scalars and opening delimiters, in-place Values, Kind, String/Int/Uint/Float/Bool, RawValue predicates, Unquote/AppendUnquote, concatenation == Compact"},
+			{Name: "deep-nesting", ShardDepth: 2, Body: deepNesting, Doc: "valid documents nested 1 .. 10000 deep (21 depths around the powers of two and the limit encoding/json accepts) x {arrays, objects, alternating, mixed with a sibling before each nested container} x 3 innermost values: the token stream equals the model's"},
 			{Name: "arbitrary", ShardDepth: 2, Body: arbitrary, Doc: "all byte strings of length 2..5 (6) over a 24-byte class alphabet: termination, no panic, error stickiness, Reset after error; valid ones checked against the model"},
 			{Name: "histories", ShardDepth: 2, Body: histories, Doc: "all sequences of up to 3 uses of one Tokenizer via Reset over 7 documents x {iterate to the end, abandon after 3 or 7 tokens, abandon while another tokenizer holds a pooled stack} followed by a full tokenisation compared with the model (reused and fresh tokenizer)"},
 		},
